@@ -59,6 +59,20 @@ type model struct {
 	w        [][]float64 // w[u][v] weight of u->v (symmetric when undirected)
 	edges    []edgeT     // normalised edge list (undirected: U<V), no duplicates, no loops
 	unit     bool        // all weights are 1
+	self     float64     // `self` value of the weighted container = w[i][i] (0 everywhere but in Q/Louvain cases)
+}
+
+// withSelf returns a copy whose weighted container reports Weight(x,x) = s;
+// the community routines read that as the diagonal entry A_xx.
+func (m *model) withSelf(s float64) *model {
+	c := *m
+	c.self = s
+	c.w = make([][]float64, m.n)
+	for i := range c.w {
+		c.w[i] = append([]float64(nil), m.w[i]...)
+		c.w[i][i] = s
+	}
+	return &c
 }
 
 func newModel(c graphCase) *model {
@@ -118,7 +132,7 @@ func (m *model) unitModel() *model {
 }
 
 func (m *model) hash() string {
-	return fmt.Sprintf("%d/%v/%v/%v", m.n, m.directed, m.ids, m.edges)
+	return fmt.Sprintf("%d/%v/%v/%v/%v", m.n, m.directed, m.ids, m.edges, m.self)
 }
 
 // totalWeight is the sum of all edge weights (each undirected edge once).
@@ -196,7 +210,7 @@ func (m *model) buildUnweighted() graph.Graph {
 // (self weight 0, absent weight +Inf) holding sign*w on every edge.
 func (m *model) buildWeightedSigned(sign float64) graph.Graph {
 	if m.directed {
-		g := simple.NewWeightedDirectedGraph(0, math.Inf(1))
+		g := simple.NewWeightedDirectedGraph(sign*m.self, math.Inf(1))
 		for i := 0; i < m.n; i++ {
 			g.AddNode(m.node(i))
 		}
@@ -205,7 +219,7 @@ func (m *model) buildWeightedSigned(sign float64) graph.Graph {
 		}
 		return g
 	}
-	g := simple.NewWeightedUndirectedGraph(0, math.Inf(1))
+	g := simple.NewWeightedUndirectedGraph(sign*m.self, math.Inf(1))
 	for i := m.n - 1; i >= 0; i-- {
 		g.AddNode(m.node(i))
 	}
